@@ -525,7 +525,13 @@ analyze_extent (pixman_image_t       *image,
     if (!compute_transformed_extents (transform, extents, &transformed))
 	return FALSE;
 
-    if (image->common.type == BITS)
+    /* The positions of a projective transform are divided per sample by
+     * the fetchers, from 16.16 numerators and denominators; they differ
+     * from the corners computed above by more than a rounding step, so
+     * only an affine transform can promise that the samples cover the clip.
+     */
+    if (image->common.type == BITS &&
+	(image->common.flags & FAST_PATH_AFFINE_TRANSFORM))
     {
 	if (pixman_fixed_to_int (transformed.x1 - pixman_fixed_e) >= 0                &&
 	    pixman_fixed_to_int (transformed.y1 - pixman_fixed_e) >= 0                &&
